@@ -73,7 +73,7 @@ theorem dPoll_streams (d : DState) :
       · exact hfe _ _
     · split
       · split
-        · simp
+        · simp [dPollLoop]
         · have := hfe ‹Nat› { d with pscript := ‹List PollEv› }
           simpa using this
       · simp
@@ -106,7 +106,7 @@ theorem dPoll_ok (d : DState) (b : Bool) (h : (dPoll d).1 = .ok b) :
         | fdErr e =>
           simp only at h
           by_cases hp : d.pipe = true
-          · rw [if_pos hp] at h; cases h
+          · rw [if_pos hp]; simp [dPollLoop]
           · rw [if_neg hp] at h; exact absurd h (hfe _ _ _)
         | fdNeg => simp at h
         | ready => simp [dPollLoop]
@@ -145,7 +145,12 @@ theorem dPoll_outcome (d : DState) :
         · exact Or.inr (Or.inr (Or.inl h))
     · split
       · split
-        · exact Or.inr (Or.inr (Or.inr (Or.inr rfl)))
+        · simp only [dPollLoop]
+          rcases pollLoop_outcome d.pscript with ⟨b, h⟩ | h | h | h
+          · exact Or.inl ⟨b, h⟩
+          · exact Or.inr (Or.inr (Or.inr (Or.inl h)))
+          · exact Or.inr (Or.inr (Or.inl h))
+          · exact Or.inr (Or.inr (Or.inr (Or.inr h)))
         · rcases hfe ‹Nat› { d with pscript := ‹List PollEv› } with h | h
           · exact Or.inr (Or.inl h)
           · exact Or.inr (Or.inr (Or.inl h))
